@@ -70,7 +70,7 @@ class InjectedInterrupt(KeyboardInterrupt):
     """a signal delivered to the writer at a primitive boundary (raised by the interposer hook)"""
 
 
-EXC = {'ValueError': ValueError, 'TypeError': TypeError, 'KeyboardInterrupt': KeyboardInterrupt, 'SystemExit': SystemExit,
+EXC = {'ValueError': ValueError, 'OSError': OSError, 'TypeError': TypeError, 'KeyboardInterrupt': KeyboardInterrupt, 'SystemExit': SystemExit,
        'MemoryError': MemoryError, 'RecursionError': RecursionError, 'PicklingError': pickle.PicklingError}
 
 
@@ -308,6 +308,13 @@ def gen_scenario(rng, nops, big=False):
                 val = ['failing', rng.randrange(10 ** 6), rng.choice([0, 1, 3, 8]), rng.choice([10, 3000, 40000]),
                        rng.choice(['ValueError', 'TypeError', 'KeyboardInterrupt', 'SystemExit', 'MemoryError', 'unpicklable']),
                        rng.choice(['list', 'list', 'dict', 'oarr'])]
+                if rng.random() < 0.4:
+                    # a TRANSIENT failure (D25): the element raises once, inside write_array() after part of the .npy
+                    # image was written when the store writes raw arrays; file_store catches OSError / ValueError there
+                    # and falls back to encode_to() - on a temp file that must be started again
+                    val[4] = rng.choice(['ValueError', 'OSError', 'OSError', 'KeyboardInterrupt'])
+                    val[5] = rng.choice(['oarr', 'oarr', 'oarr', 'list'])
+                    val.append(1)
                 ops.append({'op': 'dump', 'key': k, 'val': val})
             else:
                 ops.append({'op': 'dump', 'key': k, 'val': gen_valspec(rng, False), 'raise_at': rng.randrange(0, 14)})
@@ -422,7 +429,17 @@ def fixed_scenarios(thorough):
                     {'op': 'dump', 'key': K(93), 'val': fails[3]}]
                  + [{'op': 'dump', 'key': K(93), 'val': ['bytes', 3, 9000], 'raise_at': j} for j in (0, 2, 3, 5, 6, 8, 10)]
                  + [{'op': 'reopen', 'compress': False}]
-                 + [{'op': 'dump', 'key': K(92), 'val': ['arr', 'int32', [50], 2, 'C'], 'raise_at': j} for j in (1, 4, 7, 9)]}
+                 + [{'op': 'dump', 'key': K(92), 'val': ['arr', 'int32', [50], 2, 'C'], 'raise_at': j} for j in (1, 4, 7, 9)]
+                 # D25: write_array() raises after part of the array was written and file_store falls back to encode_to():
+                 # a new key, a key holding a result, a key inside the pack; then the same when it is not caught
+                 + [{'op': 'dump', 'key': K(99), 'val': ['failing', 1, 2, 40000, 'ValueError', 'oarr', 1]},
+                    {'op': 'dump', 'key': K(93), 'val': ['failing', 2, 3, 40000, 'OSError', 'oarr', 1]},
+                    {'op': 'dump', 'key': K(89), 'val': ['failing', 3, 0, 10, 'OSError', 'oarr', 1]},
+                    {'op': 'dump', 'key': K(90), 'val': ['int', 6]},
+                    {'op': 'update_pack'},
+                    {'op': 'dump', 'key': K(90), 'val': ['failing', 4, 1, 3000, 'ValueError', 'oarr', 1]},
+                    {'op': 'dump', 'key': K(89), 'val': ['failing', 5, 2, 40000, 'KeyboardInterrupt', 'oarr', 1]},
+                    {'op': 'dump', 'key': K(88), 'val': ['failing', 6, 2, 40000, 'OSError', 'list', 1]}]}
     return [s1, s2, s3, s4, s5, s6]
 
 
@@ -526,7 +543,7 @@ class WouldBlock(BaseException):
     pass
 
 
-def check_writable(d, keys):
+def check_writable(d, keys, full=True):
     """Residue never blocks a later write.  On the crash image d the recovery a user performs - lock cleanup
     (`jug cleanup --locks-only` = store.remove_locks()) and then running again - must work: a fresh file_store
     can store (again) each of `keys` (the key whose write was interrupted first), a fresh store reads the new
@@ -552,7 +569,7 @@ def check_writable(d, keys):
                 step = 'dump of %s' % k
                 vals[k] = ('stored again after the crash', j, k[:8])
                 S.dump(vals[k], bx(k))
-            for phase in ('after the dumps', 'after update_pack'):
+            for phase in (('after the dumps', 'after update_pack') if full else ('after the dumps',)):
                 if phase == 'after update_pack':
                     step = 'update_pack'
                     S.update_pack()
@@ -561,12 +578,13 @@ def check_writable(d, keys):
                 for k in keys:
                     if not R.can_load(bx(k)) or not same(R.load(bx(k)), vals[k]):
                         probs.append(('after a crash: a later write of the key is not read back', '%s %s' % (k, phase)))
-            step = 'remove_many of %s' % keys
-            gone = set(hx(k) for k in file_store(d).remove_many([bx(k) for k in keys]))
-            R = file_store(d)
-            for k in keys:
-                if k not in gone or R.can_load(bx(k)):
-                    probs.append(('after a crash: a later remove of the key does not remove it', k))
+            if full:
+                step = 'remove_many of %s' % keys
+                gone = set(hx(k) for k in file_store(d).remove_many([bx(k) for k in keys]))
+                R = file_store(d)
+                for k in keys:
+                    if k not in gone or R.can_load(bx(k)):
+                        probs.append(('after a crash: a later remove of the key does not remove it', k))
         except WouldBlock:
             probs.append(('after a crash and lock cleanup: a later store operation waits for a lock', step))
         except BaseException as e:
@@ -1150,6 +1168,7 @@ def short_trace(events, a, b):
 
 
 def search_scenario(ck, rec, root, cap, max_points, report):
+    thorough = ck.tier == 'thorough'
     """fault enumeration over every API operation of a recorded scenario.  report(op, crash, image, problems)."""
     evs, pos = expand_writes(rec.events, rec.blobs)
     pool = Pool(root, rec.blobs)
@@ -1168,6 +1187,7 @@ def search_scenario(ck, rec, root, cap, max_points, report):
             points = sorted(keep)
         seen = {}
         seen_w = set()
+        seen_full = set()
         # the keys stored again on every crash image: the key(s) whose operation was interrupted, and another one
         wkeys = sorted(o.targets)[:1] + [k for k in rec.universe if k not in o.targets][:1]
 
@@ -1187,7 +1207,12 @@ def search_scenario(ck, rec, root, cap, max_points, report):
             if wsig not in seen_w:
                 seen_w.add(wsig)
                 stats['writable'] += 1
-                probs = probs + check_writable(imgdir, wkeys)
+                # dump + read back on every distinct residue; pack and remove as well once per set of temp / lock names
+                # and pack state (quick tier; thorough: always)
+                fsig = (wsig[0], wsig[2])
+                full = thorough or fsig not in seen_full
+                seen_full.add(fsig)
+                probs = probs + check_writable(imgdir, wkeys, full=full)
             seen[sg] = bool(probs)
             if probs:
                 report(o, crash, img, probs, short_trace(evs, a, b))
